@@ -35,6 +35,9 @@ type concInput struct {
 	Reorgs  int    `json:"reorgs"`  // reorgs per round
 	Readers int    `json:"readers"` // concurrent query goroutines
 	Seed    int64  `json:"seed"`
+	// replay of one recorded round: the seed and variant of that round
+	RoundSeed bool `json:"_round_of_seed,omitempty"`
+	Variant   *int `json:"variant,omitempty"`
 }
 
 // every version of every modelled block that was ever stored in the round
@@ -105,9 +108,16 @@ func TestEventsConcurrent(t *testing.T) {
 func concurrentRound(in *concInput, round int, out *vh.Result, queries, tolerated, stableChecks *atomic.Int64) {
 	seed := in.Seed*1000 + int64(round)
 	variant := []int{0, 1, 2, 7}[round%4]
-	input := vh.J{"w": in.W, "base": in.Base, "rounds": 1, "reorgs": in.Reorgs, "readers": in.Readers, "seed": seed, "_round_of_seed": true}
+	if in.RoundSeed {
+		seed = in.Seed
+	}
+	if in.Variant != nil {
+		variant = *in.Variant
+	}
+	rin := vh.J{"w": in.W, "base": in.Base, "rounds": 1, "reorgs": in.Reorgs, "readers": in.Readers, "seed": seed,
+		"_round_of_seed": true, "variant": variant}
 	diverge := func(key, what string, exp, obs any) {
-		out.Diverge(vh.Divergence{Key: key, What: what, Input: input, Expected: exp, Observed: obs})
+		out.Diverge(vh.Divergence{Key: key, What: what, Input: rin, Expected: exp, Observed: obs})
 	}
 	im, err := safeBaseImage(in.Base, variant&1 != 0)
 	if err != nil {
@@ -116,7 +126,7 @@ func concurrentRound(in *concInput, round int, out *vh.Result, queries, tolerate
 	}
 	rnd := rand.New(rand.NewSource(seed))
 	at := newAtoms(seed)
-	r := &replayer{in: &input0{W: in.W, Base: in.Base}.input, at: at, g: chainkit.NewGen(seed), variant: variant}
+	r := &replayer{in: &input{W: in.W, Base: in.Base}, at: at, g: chainkit.NewGen(seed), variant: variant}
 	r.mem = im.store.Copy()
 	if r.node, err = r.newNode(r.mem); err != nil {
 		diverge("event-index:concurrent:node", err.Error(), nil, nil)
@@ -183,7 +193,7 @@ func concurrentRound(in *concInput, round int, out *vh.Result, queries, tolerate
 			}()
 			lr := rand.New(rand.NewSource(seed*31 + int64(ri)))
 			// a reader only shares the node (as RPC handlers share the Blockchain); its oracle is fixed
-			rd := &replayer{in: r.in, at: at, variant: variant, oracle: stableOracle}
+			rd := &replayer{in: r.in, at: at, variant: variant, oracle: stableOracle, node: r.node, content: vers.match}
 			for n := 0; !stop.Load(); n++ {
 				f := filters[lr.Intn(len(filters))]
 				a := &mAct{Name: "Query", F: f, From: 0, Chunk: []uint64{1, 2, 100}[lr.Intn(3)], Limit: []uint{0, 1, 3}[lr.Intn(3)]}
@@ -193,7 +203,6 @@ func concurrentRound(in *concInput, round int, out *vh.Result, queries, tolerate
 				} else {
 					a.To = int64(in.Base + 20)
 				}
-				rd.node = r.currentNode()
 				q := rd.query(a)
 				queries.Add(1)
 				if q.err != "" {
@@ -220,8 +229,14 @@ func concurrentRound(in *concInput, round int, out *vh.Result, queries, tolerate
 					}
 					continue
 				}
-				// any range: order, no duplicates; content is checked inside query() against rd.oracle only
-				// for stable blocks, so re-check every event against all versions here
+				// any range: every event belongs to a version of its block that existed (checked inside
+				// query() through rd.content), chain order, no duplicates
+				if q.bad != "" {
+					dmu.Lock()
+					diverge("event-query-concurrent:foreign-event", fmt.Sprintf("query %s over 0..%d returned %v: %s", filterString(f), a.To, got, q.bad), nil, got)
+					dmu.Unlock()
+					return
+				}
 				for i := 1; i < len(got); i++ {
 					p, c := got[i-1], got[i]
 					if c.B < p.B || (c.B == p.B && (c.T < p.T || (c.T == p.T && c.I <= p.I))) {
@@ -304,8 +319,6 @@ func concurrentRound(in *concInput, round int, out *vh.Result, queries, tolerate
 		dmu.Unlock()
 		return
 	}
-	// the readers checked every event they got against rd.oracle (stable blocks); full-range content:
-	// re-run the full-range queries now against all versions is pointless at quiescence - instead:
 	// ---- quiescence: the index must be exact again, before and after a restart
 	for pass := 0; pass < 2; pass++ {
 		for _, f := range filters {
@@ -333,7 +346,7 @@ func concurrentRound(in *concInput, round int, out *vh.Result, queries, tolerate
 		if pass == 0 {
 			_ = r.node.BC.WriteRunningEventFilter()
 			if n, err := r.newNode(r.mem); err == nil {
-				r.setNode(n)
+				r.node = n
 			}
 		}
 	}
